@@ -193,6 +193,14 @@ def compare_with_model(ctx, case, res, out):
             if mo[3] == 2:
                 return ('conversion %d: INPUT conversion of the free variable: the model\'s result is not the specification system '
                         'free_system of theorem C06_input_free_spec_equiv (or its premises fail)' % j)
+        if len(mo) > 4:
+            vi, ui, is_input, move = case['convs'][j]
+            ctx.hist['step_ok=%d' % mo[4]] = ctx.hist.get('step_ok=%d' % mo[4], 0) + 1
+            if not mo[4] and not (len(mo) > 3 and mo[3] == 1):
+                # the premises of C06_sequence_equiv_partial fail although the step is not an INPUT conversion of the free
+                # variable covered by the specification-level theorem: the history is outside every theorem
+                return ('conversion %d: premises of the sequence theorem (step_ok) do not hold for this step and it is not a '
+                        'free-variable INPUT conversion covered by C06_input_free_spec_equiv' % j)
         if mo[1] != st[1]:
             return 'conversion %d: returned variable index differs: model %d implementation %d' % (j, mo[1], st[1])
         mvars, meqs = cvlib.decode_state(mo[2])
